@@ -111,7 +111,9 @@ class ExcelModel:
         ), tolerance=0, absolute_tolerance=tolerance, **kwargs))
 
     def __getstate__(self):
-        return {'dsp': self.dsp, 'cells': {}, 'books': {}}
+        return {
+            'dsp': self.dsp, 'cells': {}, 'books': {}, 'basedir': self.basedir
+        }
 
     def _update_refs(self, nodes, refs):
         if nodes:
@@ -316,6 +318,9 @@ class ExcelModel:
                 not isinstance(d['function'], InvRangesAssembler) and
                 not d['function'].missing for o in d['outputs']
             )
+            # Cells of a model restored without `cells` (copy, pickle).
+            pred, dfl = self.dsp.dmap.pred, self.dsp.default_values
+            stack.difference_update({k for k in stack if k in dfl or pred[k]})
         stack = sorted(stack)
         sheet_limits = {}
         while stack:
